@@ -28,8 +28,32 @@ CLAIMS = {
          "Leaf classes' own stray exceptions and the wall-clock bound are outside the model.", "Lean 4 proof of block model (plumbing) + fuzz search", "§5 C06"),
  "C07": ("no_read_past_unmatched, unmatched_rejects_program (block level: an item matched by no leaf class is never read past and the outcome is an error, for every table/oracle/nesting) + linecount_monotone / linecount_is_lines_read / item_span_bounds (reader); property decided exhaustively per generated program (every statement replaced by garbage).",
          "", "Lean 4 proof (block + reader models) + exhaustive per-program search", "§5 C07"),
- "C08": ("block_closed, program_consumes_all, nomatch_restores (block level, every table/oracle), splitparen_balanced/splitparen_paren_shape, srm_unmatched_opener_visible; generated block tables kernel-tied; property decided on every single structural mutation of generated programs.",
-         "CloserOnly/OpenerOnly leaf exclusivity is exercised, not proved.", "Lean 4 proof (block + tokeniser models) + exhaustive per-program mutation search", "§5 C08"),
+ "C08": ("block_closed, endOK_names, program_consumes_all, unmatched_rejects_program, nomatch_restores (block level, every class table and leaf oracle), cfg_flags/named_strict/program_shape on the block tables regenerated from the repo (kernel-checked), splitparen_balanced/splitparen_paren_shape, srm_unmatched_opener_visible; property decided on every single structural mutation of generated programs.",
+         "CloserOnly/OpenerOnly leaf exclusivity is exercised, not proved.", "Lean 4 proof (block + tokeniser models) + kernel-checked generated-table tie + exhaustive per-program mutation search", "§5 C08"),
+ "C09": ("create_overwrites / registry_depends_only_on_last_create / create_clears_tables (registry model, every history), program_failure_rolls_back (every table/oracle: any exception of Program restores the scope chain and leaves no new top-level table), scope_balanced_partial, enter_exit_balanced, clear_resets; registry and symbol-table models co-simulated; property decided on exhaustive/random create-parse histories against fresh interpreter processes.",
+         "memoisation of string_replace_map is outside the model (values are immutable by convention).", "Lean 4 proof (registry, symbol-table, block models) + co-simulation + history enumeration vs fresh processes", "§5 C09"),
+ "C10": ("parents_consistent / parent_of_lastAttachedBy / parent_of_lastReset (arena model of _set_parent, every construction history), items_once_in_order / frontier_eq_consumed (statement order = source order); arena model co-simulated on recorded construction events of real trees; invariants decided directly on every tree of generated programs and of their re-parse.",
+         "walk pre-order clause and freshness for string-level nodes are checked on observed trees (partial).", "Lean 4 proof (tree arena + block models) + co-simulation + direct structural check", "§5 C10"),
+ "C11": ("read_comments_once / read_ignore_comments / read_spans_ordered (reader, every chunk list), join_continuation (comments between continuation lines), comments_once_in_order / items_once_in_order / fail_restores (block level, every table/oracle: every comment item of the input is a tree leaf once, in order; back-tracking restores them); property decided on generated comment placements.",
+         "directive retyping is decided on generated inputs only.", "Lean 4 proof (reader + block models) + co-simulation + placement search", "§5 C11"),
+ "C12": ("get_put_inverse, lookahead_restore, walk_restore (any well-bracketed read-ahead/restore walk, include delegation included), drain_unique, item_span_bounds, read_spans_ordered, join_continuation, linecount theorems; regex scanners tied by exhaustive tables; model == real reader on the layout generators every run; items compared with the expectation by construction.",
+         "include_transparent/fixed_items are co-simulated only. Known finding F-C12-1 has decide'd witnesses.", "Lean 4 proof (reader model) + exhaustive regex tables + co-simulation", "§5 C12"),
+ "C13": ("include_missing_kept, get_put_inverse/walk_restore through include readers (reader), fail_restores/items_once_in_order (block level), detect_free/detect_fixed (format of the included file); transparency decided on splits of generated programs into nested include files (file and string readers, decoy directories).",
+         "include_transparent is co-simulated, not proved; include files must be format-stable (C05 boundary).", "Lean 4 proof (reader + block + detection models) + co-simulation + split enumeration", "§5 C13"),
+ "C14": ("cpp_line_item / cpp_line_item_free (a '#' line with k backslash continuations is exactly one item spanning k+1 lines, every reader state), items_once_in_order / fail_restores (block level: each cpp item is a tree leaf once, in order); property decided on insertions of every directive kind at statement boundaries.",
+         "Cpp_* leaf match/tostr pairs are exercised, not proved (F-C14-1 is such a leaf defect).", "Lean 4 proof (reader + block models) + co-simulation + insertion search", "§5 C14"),
+ "C15": ("omp_sentinel_blanked, omp_directive_untouched, omp_nomatch_unchanged, omp_fixed_column6, omp_disabled, omp_enabled_single, omp_enabled_directive_is_comment, omp_join_continuation (reader model, every line / reader state); sentinel regexes tied by exhaustive tables; reader co-simulated in both modes on every generated source; property decided on subsets of statements hidden behind sentinels, free and fixed form.",
+         "fixed-form multi-line case is co-simulated only.", "Lean 4 proof (reader model) + exhaustive regex tables + co-simulation", "§5 C15"),
+ "C16": ("lookup_parents_only (a lookup depends only on the tables on the path to the root: sibling/inner declarations cannot change it), intrinsic_iff_not_shadowed, intrinsic_parents_only, enter_exit_balanced, scope_balanced_partial, program_failure_rolls_back; symbol-table model co-simulated on random operation scripts; forest == scope tree and intrinsic resolution decided on generated scope nests with shadowing at chosen levels.",
+         "tables_mirror_tree is decided on generated nests, not proved; F-C16-1 has a decide'd witness.", "Lean 4 proof (symbol-table + block models) + co-simulation + ground-truth-by-construction search", "§5 C16"),
+ "C17": ("registry_f2008_covers_f2003_partial, f2008_has_every_f2003_rule, f2003_has_no_f2008_class, intr2003_subset_intr2008 (kernel-checked on the class tables regenerated from the repo), setup model == live Base.subclasses (exhaustive executable check); differential parse of generated F2003 programs under both standards and one probe per F2008-only construct.",
+         "table inclusion does not imply language inclusion (ordered choice): the differential run covers the rest.", "Lean 4 proof over regenerated tables (decide +kernel) + differential search", "§5 C17"),
+ "C18": ("copyok_generated (every rule class of the regenerated class table satisfies the copy protocol: kernel-checked, flips if a class loses _deepcopy/.string), copyok_custom_new, deepcopy_fails_at_start; copy model co-simulated incl. grafted broken classes; deepcopy/pickle decided directly on trees of generated programs incl. comment, directive, include and cpp nodes.",
+         "deepcopy_iso is checked on observed trees (partial).", "Lean 4 proof over regenerated tables + co-simulation + direct copy check", "§5 C18"),
+ "C19": ("nest1_flatten, nest1_print_stable (unconditional at HEAD), fill_input (fparser1 block nesting model: nesting the flattened statement list gives back the tree, nothing dropped/duplicated/reordered, every depth), norm theorems for the statement-text comparison; model == real fparser1 nesting on generated F77/F90 sources (free/fixed, incl. broken ones); round trip decided directly.",
+         "fparser1's per-statement regex parsers are leaves.", "Lean 4 proof (nesting model) + co-simulation + direct round trip", "§5 C19"),
+ "C20": ("eval_fuel_mono, parse_cache_once (block model: a completed evaluation is fuel-independent; a (line, class) pair is matched at most once), parse_fuel_enough (expression model: explicit fuel bound); deterministic count of rule-constructor calls on a fixed catalogue of families at doubling sizes under a budget. PARTIAL: no polynomial bound is proved for the whole parser (two catalogue families are exponential: known findings).",
+         "a bound for unseen n is an extrapolation; per-family degree k_f = 1 is fixed from the pinned tree.", "Lean 4 proof (termination/fuel bounds of the models) + deterministic call counting", "§5 C20"),
 }
 
 
